@@ -1,8 +1,9 @@
 (* Properties/C49.v — JSON-RPC answers every call exactly once.
    Model: Rpc/Batch.v (transcribed from rpc/handler.go, rpc/json.go, rpc/subscription.go).
-   [breach c (binit c calls) s] / [sreach m (sinit c) s]: s is reachable by ANY
+   [breach c (binit c calls) s] / [sreach c m (sinit c) s]: s is reachable by ANY
    interleaving of the atomic steps of the handler goroutine, the timeout-timer
-   goroutine and service goroutines calling Notify.  [RM r m]: r answers m (a call
+   goroutine, service goroutines calling Notify, and an external canceller of the
+   request context.  [RM r m]: r answers m (a call
    gets its own id back; an invalid entry gets an error).  [answerable l]: the
    entries of l that are not notifications. *)
 From GV Require Import Lib.Tactics Rpc.Batch Rpc.BatchProofs.
@@ -13,15 +14,18 @@ Theorem C49_batch_written_at_most_once :
 Proof. exact batch_written_at_most_once. Qed.
 Print Assumptions C49_batch_written_at_most_once.
 
-(* for the timer callback as it is in the code (respondWithError, then cancel):
-   in every interleaving, for every batch length, when the batch is over exactly one
-   batch reply has been written (none iff nothing is answerable), it contains exactly one
-   response per call / invalid entry, in batch order, none for notifications, and no
-   single reply was written.  Covers timed-out and oversized batches: the remaining
-   calls, including the one executing when the timer fired, are in that one reply. *)
+(* for the code as it is (after the loop: respondWithError(timeout) if batchCtx.Err() != nil,
+   else write), for EITHER order inside the timer callback, and with the request context
+   cancelled by an external event (thread TX: a deadline of the caller's own context, a
+   cancelled parent) at ANY point: in every interleaving, for every batch length, when the
+   batch is over exactly one batch reply has been written (none iff nothing is answerable),
+   it contains exactly one response per call / invalid entry, in batch order, none for
+   notifications, and no single reply was written.  Covers timed-out, cancelled and
+   oversized batches: the remaining calls, including the one executing when the timer
+   fired, are in that one reply. *)
 Theorem C49_batch_exactly_one_per_call :
   forall c calls s,
-    c_cancel_first c = false ->
+    c_write_on_cancel c = false ->
     breach c (binit c calls) s -> bfinal s = true ->
     exists cnt, batches (b_out s) = match cnt with [] => [] | _ => [cnt] end /\
                 singles (b_out s) = [] /\
@@ -29,16 +33,27 @@ Theorem C49_batch_exactly_one_per_call :
 Proof. exact batch_exactly_one_per_call. Qed.
 Print Assumptions C49_batch_exactly_one_per_call.
 
-(* the timer order before commit 09729572d9 (cancel, then respondWithError) loses
-   responses: a 2-call batch whose final written reply answers only the first call *)
+(* repaired defects, kept as witnesses against the old code (unconditional write() after
+   the loop): (1) commit 09729572d9 — timer callback cancel() before respondWithError: a
+   2-call batch whose final reply answers only the first call; (2) commit 01fbbf3d61 — no
+   timer at all, the context cancelled from outside between the two calls: same loss *)
 Theorem C49_batch_exactly_one_per_call_cancel_first_refuted :
   exists c calls sch,
-    c_cancel_first c = true /\
+    c_cancel_first c = true /\ c_write_on_cancel c = true /\
     let s := brun c sch (binit c calls) in
     bfinal s = true /\ answerable calls = calls /\ length calls = 2 /\
     batches (b_out s) = [[mkResp (RCopy (IdVal true 1)) 0]].
 Proof. exact batch_cancel_first_refuted. Qed.
 Print Assumptions C49_batch_exactly_one_per_call_cancel_first_refuted.
+
+Theorem C49_batch_exactly_one_per_call_external_cancel_refuted :
+  exists c calls sch,
+    c_cancel_first c = false /\ c_write_on_cancel c = true /\ c_timeout c = false /\
+    let s := brun c sch (binit c calls) in
+    bfinal s = true /\ answerable calls = calls /\ length calls = 2 /\
+    batches (b_out s) = [[mkResp (RCopy (IdVal true 1)) 0]].
+Proof. exact batch_external_cancel_refuted. Qed.
+Print Assumptions C49_batch_exactly_one_per_call_external_cancel_refuted.
 
 (* safety in either timer order: whatever is on the wire answers a prefix of the batch,
    one response per answerable entry in order — never a duplicate, never a reply to a
@@ -114,28 +129,28 @@ Print Assumptions C49_batch_processor_progress.
 (* a single call / invalid message is answered exactly once, whatever the timer does *)
 Theorem C49_single_exactly_once :
   forall c m s,
-    sreach m (sinit c) s -> sfinal s = true -> is_notification m = false ->
+    sreach c m (sinit c) s -> sfinal s = true -> is_notification m = false ->
     exists r ns, s_out s = WSingle r :: ns /\ forallb is_notif ns = true /\
                  singles (s_out s) = [r] /\ RM r m.
 Proof. exact single_exactly_once. Qed.
 Print Assumptions C49_single_exactly_once.
 
-(* FULL STATEMENT (false, see the _refuted theorem below):
-     forall c m s, sreach m (sinit c) s -> is_notification m = true -> singles (s_out s) = [].
-   Proved part: it holds when no request timeout is configured (every non-HTTP
-   transport).  Missing: the timer callback of handleNonBatchCall writes
-   msg.errorResponse(timeout) without testing msg.isNotification(). *)
-Theorem C49_single_notification_no_reply_partial :
+(* a single notification never gets a reply, in every interleaving, timeout or not — for
+   the timer callback as it is in the code (it returns before writing when
+   msg.isNotification()) *)
+Theorem C49_single_notification_no_reply :
   forall c m s,
-    c_timeout c = false ->
-    sreach m (sinit c) s -> is_notification m = true -> singles (s_out s) = [].
-Proof. exact single_notification_no_reply_partial. Qed.
-Print Assumptions C49_single_notification_no_reply_partial.
+    c_notif_timeout_reply c = false ->
+    sreach c m (sinit c) s -> is_notification m = true -> singles (s_out s) = [].
+Proof. exact single_notification_no_reply. Qed.
+Print Assumptions C49_single_notification_no_reply.
 
+(* the callback before commit 947a0e3339 (no isNotification test) answered a timed-out
+   notification with an error *)
 Theorem C49_single_notification_timeout_refuted :
   exists c m sch,
-    is_notification m = true /\
-    let s := srun m sch (sinit c) in
+    c_notif_timeout_reply c = true /\ is_notification m = true /\
+    let s := srun c m sch (sinit c) in
     sfinal s = true /\ singles (s_out s) = [error_response m E_TIMEOUT].
 Proof. exact single_notification_timeout_refuted. Qed.
 Print Assumptions C49_single_notification_timeout_refuted.
@@ -153,7 +168,7 @@ Print Assumptions C49_notifications_after_response_batch.
 
 Theorem C49_notifications_after_response_single :
   forall c m s pre m' q post,
-    sreach m (sinit c) s ->
+    sreach c m (sinit c) s ->
     s_out s = pre ++ WNotif m' q :: post -> is_notification m = false ->
     exists r pre', pre = WSingle r :: pre' /\ RM r m.
 Proof. exact single_notifications_after_response. Qed.
@@ -171,14 +186,14 @@ Print Assumptions C49_schedules_are_interleavings.
    request, timeout for the executing call whose real answer is discarded), and the three
    notifications after it *)
 Example C49_nonvacuous :
-  let c := mkCfg 0 0 43 true false in
+  let c := mkCfg 0 0 43 true false false false in
   let sub := mkMsg true (IdVal true 5) MPlain true false false 0 20 (Some (2, 1)) in
   let calls := [ mkMsg true (IdVal true 1) MPlain false false false 0 1 None;
                  mkMsg true IdAbsent MPlain false false false 0 1 None;
                  mkMsg false (IdVal true 3) MEmpty false false false 0 0 None;
                  sub ] in
-  let s := brun c (repeat TP 14 ++ [TT; TT] ++ repeat TP 8 ++ [TE 0]) (binit c calls) in
-  bfinal s = true /\ c_cancel_first c = false /\
+  let s := brun c (repeat TP 14 ++ [TT; TT] ++ repeat TP 9 ++ [TE 0]) (binit c calls) in
+  bfinal s = true /\ c_write_on_cancel c = false /\
   b_out s = [ WBatch [ mkResp (RCopy (IdVal true 1)) 0;
                        mkResp (RCopy (IdVal true 3)) 1;
                        mkResp (RCopy (IdVal true 5)) 5 ];
